@@ -505,7 +505,7 @@ func (e *unitsEngine) callType(fn *ssa.Function, args []ssa.Value, depth int) (u
 }
 
 func checkC08(c *Ctx) {
-	c.Explanation = "Decides the structure of the range, phase-range and rate formulas by a small type system over the SSA of the formula methods: every value carries (unit, binary exponent, decimal exponent, sign); field types come from the oracle (whole ms 2^0, fractional 2^-10, fine range 2^-24/2^-29, fine phase 2^-29/2^-31, rough rate m/s, fine rate 1e-4 m/s); shifts and multiplications by powers of two or ten move the exponents, + and | need identical types (| additionally disjoint bit ranges of plain shifted fields, so a carry or borrow cannot be lost), the light-millisecond constant turns plain ms into m, division by the wavelength turns m into cycles and m/s into Hz, *-1 flips the sign.  (R1) every exported formula method of MSM4 and MSM7 has its declared result type and the two families agree; (R2) each 'invalid' constant equals -2^(w-1) for the width w that the layout oracle gives its field (255 for the 8-bit rough range), a formula returns zero only under a rough-invalid (or missing satellite) test, and a fine-invalid test replaces the delta by 0; (R3) constants: OneLightMillisecond*1000 == SpeedOfLightMS == 299792458, TwoToThePowerN == 2^N; (R4) the four signal-frequency tables equal the oracle table over all ids 1..32, wavelength = c/f with a zero guard, and GetSignalWavelength dispatches the four constellation names. (R2, marker tests) every comparison of a field that has an invalid marker is an (in)equality with exactly that marker, so no valid value is treated as invalid; (R5) the cell, header and formula packages keep no package-level storage that is written outside initialisers, so the cells a formula reads belong to their own message."
+	c.Explanation = "Decides the structure of the range, phase-range and rate formulas by a small type system over the SSA of the formula methods: every value carries (unit, binary exponent, decimal exponent, sign); field types come from the oracle (whole ms 2^0, fractional 2^-10, fine range 2^-24/2^-29, fine phase 2^-29/2^-31, rough rate m/s, fine rate 1e-4 m/s); shifts and multiplications by powers of two or ten move the exponents, + and | need identical types (| additionally disjoint bit ranges of plain shifted fields, so a carry or borrow cannot be lost), the light-millisecond constant turns plain ms into m, division by the wavelength turns m into cycles and m/s into Hz, *-1 flips the sign.  (R1) every exported formula method of MSM4 and MSM7 has its declared result type and the two families agree; (R2) each 'invalid' constant equals -2^(w-1) for the width w that the layout oracle gives its field (255 for the 8-bit rough range), a formula returns zero only under a rough-invalid (or missing satellite) test, and a fine-invalid test replaces the delta by 0; (R3) constants: OneLightMillisecond*1000 == SpeedOfLightMS == 299792458, TwoToThePowerN == 2^N; (R4) the four signal-frequency tables equal the oracle table over all ids 1..32, wavelength = c/f with a zero guard, and GetSignalWavelength dispatches the four constellation names. (R2, marker tests) every comparison of a field that has an invalid marker is an (in)equality with exactly that marker, so no valid value is treated as invalid; (R5) the cell, header and formula packages keep no package-level storage that is written outside initialisers, so the cells a formula reads belong to their own message; (R6) the shared scale helpers in utils have no branch that depends on an argument value, so no value is special-cased after normalisation."
 	c.NotDecided = "floating-point rounding; wrap-around for negative totals (excluded by the property's precondition); whether the documented frequency table itself matches RTCM for every BeiDou band (taken as documented)."
 	P := c.P
 	or, err := loadUnitsOracle(c.Verifdir)
@@ -609,6 +609,59 @@ func checkC08(c *Ctx) {
 	checkFrequencyTables(c, "C08-R4", or)
 	// ---- R5 operand ownership: the cells a formula reads belong to their own message
 	ruleGlobalsInitOnly(c, "C08-R5", []string{"rtcm/header", "rtcm/utils", "rtcm/type_msm4/satellite", "rtcm/type_msm4/signal", "rtcm/type_msm4/message", "rtcm/type_msm7/satellite", "rtcm/type_msm7/signal", "rtcm/type_msm7/message"})
+	// ---- R6 the shared scale helpers treat every argument value alike: they are arithmetic in their
+	// parameters, with no branch whose condition depends on a parameter.  (The invalid markers belong
+	// to the fields of one family and width; a helper that receives an already normalised delta and
+	// special-cases "the marker" drops a valid fine value.)
+	for _, n := range []string{"GetScaledRange", "GetScaledPhaseRange", "getScaledValue", "GetScaledPhaseRangeRate",
+		"GetApproxRangeMilliseconds", "GetApproxRangeMetres", "GetPhaseRangeMilliseconds", "GetPhaseRangeLightMilliseconds"} {
+		fn := P.Func("rtcm/utils", n)
+		if fn == nil {
+			c.Unresolved("C08-R6", "rtcm/utils."+n)
+			continue
+		}
+		// parameters that receive a constant at every call site in the module (shift counts) are
+		// configuration, not data: a guard on them selects nothing at run time
+		constParam := map[*ssa.Parameter]bool{}
+		for _, prm := range fn.Params {
+			constParam[prm] = true
+		}
+		sites := 0
+		for _, g := range P.ModFuncs() {
+			eachInstr(g, func(ins ssa.Instruction) {
+				ci, ok := ins.(ssa.CallInstruction)
+				if !ok || ci.Common().StaticCallee() != fn {
+					return
+				}
+				sites++
+				for i, a := range ci.Common().Args {
+					if i < len(fn.Params) {
+						if _, isC := stripConv(a).(*ssa.Const); !isC {
+							constParam[fn.Params[i]] = false
+						}
+					}
+				}
+			})
+		}
+		if sites == 0 {
+			constParam = map[*ssa.Parameter]bool{}
+		}
+		bad := false
+		eachInstr(fn, func(ins ssa.Instruction) {
+			ifi, ok := ins.(*ssa.If)
+			if !ok || blockDead(ifi.Block()) {
+				return
+			}
+			if dependsOnParam(ifi.Cond, fn, 12, constParam) {
+				bad = true
+				c.Fail("C08-R6", "value-independent("+n+")", ifi.Pos(), "refuted", n+" branches on the value of one of its arguments: some argument values are converted by a different formula than the rest")
+			}
+		})
+		if !bad {
+			c.OK("C08-R6", "value-independent("+n+")", fn.Pos(), "no branch depends on an argument value")
+		}
+	}
+	c.MinInstances("C08-R6", 8)
 	c.MinInstances("C08-R5", 1)
 	c.MinInstances("C08-R1", 13)
 	c.MinInstances("C08-R2", 12)
@@ -879,4 +932,37 @@ func checkFrequencyTables(c *Ctx, rule string, or *unitsOracle) {
 			c.OK(rule, "table("+k+")", freqFn.Pos(), fmt.Sprintf("ids 0..64 agree with the documented table (%d ids with a frequency)", len(or.Freq[k])))
 		}
 	}
+}
+
+// dependsOnParam: v is computed (through arithmetic, comparisons, conversions and phis, at most depth
+// steps) from a parameter of fn other than those in except; unknown producers count as dependent.
+func dependsOnParam(v ssa.Value, fn *ssa.Function, depth int, except map[*ssa.Parameter]bool) bool {
+	seen := map[ssa.Value]bool{}
+	var rec func(v ssa.Value, d int) bool
+	rec = func(v ssa.Value, d int) bool {
+		if seen[v] {
+			return false
+		}
+		seen[v] = true
+		switch x := v.(type) {
+		case *ssa.Const, *ssa.Global, *ssa.Function, *ssa.Builtin:
+			return false
+		case *ssa.Parameter:
+			return x.Parent() == fn && !except[x]
+		}
+		if d == 0 {
+			return true
+		}
+		ins, ok := v.(ssa.Instruction)
+		if !ok {
+			return true
+		}
+		for _, op := range ins.Operands(nil) {
+			if *op != nil && rec(*op, d-1) {
+				return true
+			}
+		}
+		return false
+	}
+	return rec(v, depth)
 }
